@@ -8,8 +8,6 @@ namespace Qrl.BdsLabel
 open Qrl.Bds
 
 /-- true authentication path of leaf `i`: at each height the sibling of the ancestor -/
-def sib (n : Nat) : Nat := if n % 2 = 0 then n + 1 else n - 1
-
 def trueAuth (h i : Nat) : List Lbl := (List.range h).map (fun j => .nd j (sib (i >>> j)))
 
 /-- check indices `i, i+1, …, i+n-1` starting from state `s` (the state belonging to index `i`) -/
@@ -32,6 +30,16 @@ theorem checkFrom_sound (h : Nat) : ∀ (n i : Nat) (s : St Lbl), checkFrom h n 
       simp only [fastForward]
       rw [this]; congr 1; omega
 
+theorem fastForward_add' (h : Nat) : ∀ (a b i : Nat) (s : St Lbl),
+    fastForward ops h (a + b) i s = fastForward ops h b (i + a) (fastForward ops h a i s)
+  | 0, b, i, s => by simp [fastForward]
+  | a+1, b, i, s => by
+    have : a + 1 + b = (a + b) + 1 := by omega
+    rw [this]
+    simp only [fastForward]
+    rw [fastForward_add' h a b (i+1)]
+    congr 1; omega
+
 /-- what a successful whole-life check of height `h` means -/
 theorem checkAll_sound (h : Nat) (hc : checkAll h = true) :
     (treeHashSetup ops h).2 = .nd h 0 ∧
@@ -40,6 +48,74 @@ theorem checkAll_sound (h : Nat) (hc : checkAll h = true) :
   refine ⟨hc.1, fun i hi => ?_⟩
   have := checkFrom_sound h (2 ^ h) 0 _ hc.2 i hi
   simpa using this
+
+/-- for height `h`: key generation returns the root label, and at every index `i < 2^h`, after `i` traversal
+steps from key generation, the stored authentication path is the sibling path of leaf `i` -/
+def TraversalCorrect (h : Nat) : Prop :=
+  (treeHashSetup ops h).2 = .nd h 0 ∧
+  ∀ i, i < 2 ^ h → (fastForward ops h i 0 (treeHashSetup ops h).1).auth = trueAuth h i
+
+theorem traversal_of_checkAll (h : Nat) (hc : checkAll h = true) : TraversalCorrect h := checkAll_sound h hc
+
+-- ---- segment certificates: the same statement for a taller tree, checked in pieces ----
+
+/-- `n` times (check the path of index `i`, then step), returning the final state and whether all checks held -/
+def runSeg (h : Nat) : Nat → Nat → St Lbl → St Lbl × Bool
+  | 0, _, s => (s, true)
+  | n+1, i, s =>
+    let r := runSeg h n (i+1) (step ops h s i)
+    (r.1, (s.auth == trueAuth h i) && r.2)
+
+theorem runSeg_sound (h : Nat) : ∀ (n i : Nat) (s s' : St Lbl), runSeg h n i s = (s', true) →
+    fastForward ops h n i s = s' ∧ ∀ d, d < n → (fastForward ops h d i s).auth = trueAuth h (i + d)
+  | 0, _, s, s', hr => by
+    simp only [runSeg, Prod.mk.injEq, and_true] at hr
+    exact ⟨hr, fun d hd => by omega⟩
+  | n+1, i, s, s', hr => by
+    simp only [runSeg, Prod.mk.injEq, Bool.and_eq_true, beq_iff_eq] at hr
+    obtain ⟨h1, h2, h3⟩ := hr
+    have ih := runSeg_sound h n (i+1) (step ops h s i) s' (Prod.ext h1 h3)
+    refine ⟨ih.1, fun d hd => ?_⟩
+    cases d with
+    | zero => simpa [fastForward] using h2
+    | succ d =>
+      have := ih.2 d (by omega)
+      simp only [fastForward]
+      rw [this]; congr 1; omega
+
+/-- a chain of segment certificates: states `S 0, S 1, …, S m` with `S 0` the key-generation state, each
+segment of `len` steps leading from `S c` to `S (c+1)` with all paths correct, and the last path correct -/
+theorem traversal_of_segments (h len m : Nat) (S : Nat → St Lbl) (hlen : len * m + 1 = 2 ^ h)
+    (hsetup : treeHashSetup ops h = (S 0, .nd h 0))
+    (hseg : ∀ c, c < m → runSeg h len (len * c) (S c) = (S (c+1), true))
+    (hlast : (S m).auth = trueAuth h (len * m)) : TraversalCorrect h := by
+  have hS : ∀ c, c ≤ m → fastForward ops h (len * c) 0 (S 0) = S c := by
+    intro c
+    induction c with
+    | zero => intro _; simp [fastForward]
+    | succ c ih =>
+      intro hc
+      have e : len * (c+1) = len * c + len := Nat.mul_succ len c
+      rw [e, show ∀ a b, fastForward ops h (a + b) 0 (S 0) = fastForward ops h b (0 + a) (fastForward ops h a 0 (S 0)) from
+        fun a b => fastForward_add' h a b 0 (S 0), ih (by omega), Nat.zero_add]
+      exact (runSeg_sound h len (len * c) (S c) (S (c+1)) (hseg c (by omega))).1
+  refine ⟨by rw [hsetup], fun i hi => ?_⟩
+  rw [hsetup]
+  simp only
+  by_cases hil : i = len * m
+  · rw [hil, hS m (Nat.le_refl _)]; exact hlast
+  · have hlenpos : 0 < len := by
+      rcases Nat.eq_zero_or_pos len with h0 | h0
+      · subst h0; simp at hlen hil; omega
+      · exact h0
+    have hc : i / len < m := by
+      apply Nat.div_lt_of_lt_mul
+      have : i < len * m := by omega
+      exact this
+    have hi' : i = len * (i / len) + i % len := (Nat.div_add_mod i len).symm
+    rw [hi', show ∀ a b, fastForward ops h (a + b) 0 (S 0) = fastForward ops h b (0 + a) (fastForward ops h a 0 (S 0)) from
+        fun a b => fastForward_add' h a b 0 (S 0), hS _ (by omega), Nat.zero_add]
+    exact (runSeg_sound h len (len * (i / len)) (S (i / len)) _ (hseg _ hc)).2 _ (Nat.mod_lt _ hlenpos)
 
 set_option maxRecDepth 100000 in
 theorem bds_h4 : checkAll 4 = true := by decide +kernel
